@@ -505,6 +505,26 @@ def run_map_case(s, t, cs, ct, ats, att, variant, rec=None, full=False):
                                 '%s -> %s: the mapping dictionaries passed in were modified' % (s, t)))
                     stop = True
                     break
+                # each optional mapping argument alone (the other is then made by the library)
+                for label, args in (('block-mapping-alone', (mapping,)), ('column-mapping-alone', ({}, colmap))):
+                    alone = t2incon()
+                    try:
+                        with quiet():
+                            with core.timelimit(120):
+                                alone.transfer_from(inc, src, tgt, *args)
+                    except Exception as e:
+                        out.append(('C19|t2incon.transfer_from|exception:%s|%s,%s' % (type(e).__name__, atmclass + sfx, label),
+                                    'transfer_from(%s -> %s, %s) raised %r' % (s, t, label, e)))
+                        stop = True
+                        break
+                    r = check_incon(alone, before, snapshot(inc), ps, pt, nvar, mp)
+                    if r is not None:
+                        out.append(('C19|t2incon.transfer_from|%s|%s,%s' % (r[0], r[2] + sfx, label),
+                                    '%s -> %s, %s: %s' % (s, t, label, r[1])))
+                        stop = True
+                        break
+                if stop:
+                    break
         if stop:
             break
     if given is not None:
@@ -602,9 +622,82 @@ def run_history_case(case, rec=None):
     return out
 
 
+_srcmodels = {}
+
+
+def run_section_case(case, rec=None):
+    """Initial conditions held INSIDE the source model (INCON section) and moved by t2data.transfer_from between
+    two geometries: every target block that has an image gets the state of an acceptable image."""
+    from t2data import t2data
+    from t2grids import t2grid
+    s, t, cs, ct, ats, att = case['s'], case['t'], case['cs'], case['ct'], case['ats'], case['att']
+    src = geometry(s, cs, 0)
+    tgt = geometry(t, ct, 1 if (s == t and (cs == ct or s in 'IJ')) else 0)
+    if tgt is src:
+        tgt = geometry(t, ct, 1)
+    set_atm(src, ats)
+    set_atm(tgt, att)
+    ps, pt = plain_of(src), plain_of(tgt)
+    mp = mapper(src, tgt, ps, pt)
+    cls = 'atm %d->%d' % (ats, att)
+    key = (id(src), ats)
+    with quiet():
+        if key not in _srcmodels:
+            _srcmodels.clear()
+            dat = t2data()
+            dat.grid = t2grid().fromgeo(src)
+            _srcmodels[key] = dat
+        dat = _srcmodels[key]
+        dat.incon = {}
+        for k, name in enumerate(ps['names']):
+            dat.incon[name] = [0.01 + 1e-5 * k, [1000.0 * (k + 1) + 0.5, 1000.0 * (k + 1) + 1.5]]
+    before = repr(sorted(dat.incon.items()))
+    byvar = dict((tuple(v[1]), n) for n, v in dat.incon.items())
+    new = t2data()
+    try:
+        with quiet():
+            with core.timelimit(120):
+                new.transfer_from(dat, src, tgt)
+    except core.CaseTimeout:
+        return [('C19|t2data.transfer_from(INCON section)|timeout|' + cls, 'did not return within 120 s')]
+    except Exception as e:
+        return [('C19|t2data.transfer_from(INCON section)|exception:%s|%s' % (type(e).__name__, cls),
+                 'transfer_from(%s -> %s) of a model with an INCON section raised %r' % (s, t, e))]
+    if rec is not None:
+        rec.count('incon_section_transfers', 1)
+    if repr(sorted(dat.incon.items())) != before:
+        return [('C19|t2data.transfer_from(INCON section)|source-altered|' + cls, 'the source model\'s INCON section changed')]
+    for name in pt['names']:
+        is_atm = name in pt['atm']
+        if is_atm and ps['type'] == 2:
+            continue                       # no source atmosphere block: nothing is asserted
+        inc = new.incon.get(name)
+        if inc is None:
+            return [('C19|t2data.transfer_from(INCON section)|block-without-state|' + (cls if is_atm else 'underground'),
+                     '%s -> %s: target block %r got no initial conditions although every source block has them'
+                     % (s, t, name))]
+        srcname = byvar.get(tuple(inc[1]))
+        if srcname is None or inc[0] != dat.incon[srcname][0]:
+            return [('C19|t2data.transfer_from(INCON section)|state|' + cls,
+                     '%s -> %s: target block %r got %r, which is no source block\'s state' % (s, t, name, inc))]
+        if is_atm:
+            ok = srcname in ps['atm'] and (ps['type'] == 0 or pt['type'] == 0 or
+                                           ps['atm'][srcname] in mp.near_columns(pt['atm'][name]))
+        else:
+            li, ci = pt['under'][name]
+            ok = srcname in ps['under'] and ps['under'][srcname] in mp.images(li, ci)
+        if not ok:
+            return [('C19|t2data.transfer_from(INCON section)|state|' + (cls if is_atm else 'underground'),
+                     '%s -> %s: target block %r got the state of source block %r, not of its image' % (s, t, name, srcname))]
+    return []
+
+
 def map_cases(s, t, tier):
     cs, ct = conv_pairs(s, t, tier)[0]
     yield {'kind': 'history', 's': s, 't': t, 'cs': cs, 'ct': ct}
+    for ats in (0, 1, 2):
+        for att in (0, 1, 2):
+            yield {'kind': 'section', 's': s, 't': t, 'cs': cs, 'ct': ct, 'ats': ats, 'att': att}
     for cs, ct in conv_pairs(s, t, tier):
         for ats in (0, 1, 2):
             for att in (0, 1, 2):
@@ -902,6 +995,8 @@ def case_key(c):
 def run_case(case, rec=None):
     if case['kind'] == 'history':
         return run_history_case(case, rec)
+    if case['kind'] == 'section':
+        return run_section_case(case, rec)
     if case['kind'] == 'map':
         return run_map_case(case['s'], case['t'], case['cs'], case['ct'], case['ats'], case['att'], case['variant'], rec,
                             bool(case.get('full')))
